@@ -215,6 +215,48 @@ func (c *cutCase) runReader() error {
 	return c.checkFinalErr(err, "Reader.NextFrame")
 }
 
+// runNextReader: the package-level wsutil.NextReader, one call per top-level frame/message
+// (a fresh Reader each time; control frames between fragments are skipped by it).
+func (c *cutCase) runNextReader() error {
+	src := c.src()
+	idle := 2*len(c.Frames) + 4
+	for _, e := range ref.Events(c.Frames) {
+		if e.Kind == "ctl" && e.Intermediate {
+			continue
+		}
+		wholeHere := c.end[e.At] <= c.Off
+		h, r, err := wsutil.NextReader(src, c.State)
+		if err != nil {
+			if wholeHere {
+				return fmt.Errorf("NextReader failed (%v) although %v is completely present", err, e)
+			}
+			return c.checkFinalErr(err, "NextReader")
+		}
+		if h.OpCode != ws.OpCode(e.Op) {
+			return fmt.Errorf("NextReader opcode %v, stream has %#x", h.OpCode, e.Op)
+		}
+		p, err := readUntil(r, 7, idle)
+		if err == io.EOF {
+			if !wholeHere {
+				return fmt.Errorf("%v was reported complete by the reader NextReader returned (io.EOF after %d bytes) although the stream ends at offset %d, before its end %d", e, len(p), c.Off, c.end[e.At])
+			}
+			if !bytes.Equal(p, e.Payload) {
+				return fmt.Errorf("%v delivered as %x", e, p)
+			}
+			continue
+		}
+		if wholeHere {
+			return fmt.Errorf("reading %v failed (%v) although it is completely present", e, err)
+		}
+		if !bytes.HasPrefix(e.Payload, p) {
+			return fmt.Errorf("bytes delivered before the failure (%x) are not a prefix of the message (%x)", p, e.Payload)
+		}
+		return c.checkFinalErr(err, "NextReader's reader")
+	}
+	_, _, err := wsutil.NextReader(src, c.State)
+	return c.checkFinalErr(err, "NextReader")
+}
+
 // ---------------------------------------------------------------------------
 // wsutil.Reader with ControlFrameHandler as OnIntermediate, and ReadData: no
 // reply may be written for a control frame that was cut.
@@ -526,11 +568,13 @@ func (c *cutCase) run() error {
 		return c.runReadMessage()
 	case "ReadFrame":
 		return c.runReadFrame()
+	case "NextReader":
+		return c.runNextReader()
 	}
 	return c.runReadHeader()
 }
 
-var readerEntries = []string{"Reader", "Reader+Discard", "Reader+ControlFrameHandler", "ReadData", "ReadText", "ReadBinary", "ReadMessage", "ReadFrame", "ReadHeader"}
+var readerEntries = []string{"Reader", "Reader+Discard", "Reader+ControlFrameHandler", "ReadData", "ReadText", "ReadBinary", "ReadMessage", "ReadFrame", "ReadHeader", "NextReader"}
 
 // sweep runs every cut offset x fault kind x entry point over one conversation.
 // It returns the first failing case.
